@@ -54,6 +54,8 @@ func (c09dBadBuf) Remove() error                { return nil }
 
 var c09dPKI = peers.NewPKI()
 
+var c09dOutcome string // observation class of the last run (vacuity guard)
+
 func c09dRun(scratch string, c c09dCase) (string, string) {
 	w := peers.NewWorld(c09dPKI)
 	sock := filepath.Join(scratch, "peer.sock")
@@ -99,12 +101,14 @@ func c09dRun(scratch string, c c09dCase) (string, string) {
 			accepted = append(accepted, r)
 		}
 	}
+	c09dOutcome = fmt.Sprintf("offered=%d accepted=%d", len(c.Rcpts), len(accepted))
 	if len(accepted) == 0 {
 		d.Abort(ctx)
 		return "", ""
 	}
 	pd, ok := d.(module.PartialDelivery)
 	if !ok {
+		c09dOutcome += " atomic"
 		// atomic target: nothing to check about status keys
 		hdr := textproto.Header{}
 		d.Body(ctx, hdr, buffer.MemoryBuffer{Slice: []byte("hi\r\n")})
@@ -123,6 +127,7 @@ func c09dRun(scratch string, c c09dCase) (string, string) {
 		return "C09:downstream:panic", fmt.Sprintf("BodyNonAtomic panicked: %v", p)
 	}
 	d.Commit(ctx)
+	c09dOutcome += fmt.Sprintf(" statuses=%d", len(st.calls))
 	got := append([]string{}, st.calls...)
 	sort.Strings(got)
 	want := append([]string{}, accepted...)
@@ -208,6 +213,8 @@ func TestVerifC09Downstream(t *testing.T) {
 							}
 							if fp != "" {
 								r.Violation(fp, detail+"\ncase: "+vx.JSON(c), c)
+							} else {
+								r.Outcome(c09dOutcome)
 							}
 							if idx%977 == 0 {
 								r.Sample(c)
